@@ -131,6 +131,13 @@ Theorem one_query_per_operation : forall c s o,
 Proof. exact step_queries. Qed.
 Print Assumptions one_query_per_operation.
 
+(* the model's [RIllTyped] answer (a primary key holding an index value or vice versa) is
+   never given after any history: every write is well typed *)
+Theorem never_ill_typed : forall c rows ops o,
+  oret (snd (step c (final c (init rows) ops) o)) <> RIllTyped.
+Proof. exact never_ill_typed_lemma. Qed.
+Print Assumptions never_ill_typed.
+
 (* Load suppression is singleflight's theorem (C07: one_execution_per_key, no_stale_result):
    callers of barrier.DoEx(key) that overlap one execution share it.  [shared_take] is that
    contract instantiated at doTake: n further overlapping readers receive the leader's
